@@ -87,13 +87,17 @@ def run(ctx):
     meta = u.run_harness(ctx, "c01", ob_failed)
     model_bad, prop_bad, res = ([], [], {})
     if meta:
-        model_bad, prop_bad, res = u.eval_shards(ctx, meta, ob_failed, {"scases": "scases.jsonl", "xcases": "xcases.jsonl"},
+        model_bad, prop_bad, res = u.eval_shards(ctx, meta, ob_failed,
+                                                 {"scases": "scases.jsonl", "ccases": "ccases.jsonl",
+                                                  "xcases": "xcases.jsonl", "ycases": "ycases.jsonl"},
                                                  idents=("M", "P", "D"),
-                                                 sizes={"scases": meta.get("shard_size", 150),
-                                                        "xcases": (meta.get("e2e") or {}).get("shard_size", 100)})
+                                                 sizes={"scases": meta.get("shard_size", 150), "ccases": meta.get("shard_size", 150),
+                                                        "xcases": (meta.get("e2e") or {}).get("shard_size", 100),
+                                                        "ycases": (meta.get("e2e") or {}).get("shard_size", 100)})
     # failing components per case, computed by Coq (D)
     diag = {}
-    sizes = {"scases": meta.get("shard_size", 150), "xcases": (meta.get("e2e") or {}).get("shard_size", 100)}
+    sizes = {"scases": meta.get("shard_size", 150), "ccases": meta.get("shard_size", 150),
+             "xcases": (meta.get("e2e") or {}).get("shard_size", 100), "ycases": (meta.get("e2e") or {}).get("shard_size", 100)}
     for shard, r in res.items():
         if isinstance(r, dict) and r.get("D") and not shard.startswith("_"):
             kind, idx = shard.rsplit("_", 1)[0], int(shard.rsplit("_", 1)[1].split(".")[0])
@@ -102,15 +106,19 @@ def run(ctx):
 
     def replay_of(kc):
         kind, case = kc
-        if kind == "scases":
+        if kind in ("scases", "ccases"):
             d = {k: v for k, v in case.items() if k not in ("_obs", "_i")}
-            d["kind"] = "stack"
+            d["kind"] = "stack" if kind == "scases" else "configured-stack"
         else:
             d = {"kind": "e2e", "conn": case.get("conn"), "index": case.get("index")}
         d["observed"] = case.get("_obs")
         return d
 
-    for kind, label, keyf in (("scases", "modifier-stack", keys_stack), ("xcases", "end-to-end", keys_e2e)):
+    def keys_cfg(case, comps):
+        return [k.replace("stack-", "configured-stack-", 1) for k in keys_stack(case, comps)]
+
+    for kind, label, keyf in (("scases", "modifier-stack", keys_stack), ("ccases", "configured-modifier-stack", keys_cfg),
+                              ("xcases", "end-to-end", keys_e2e), ("ycases", "end-to-end (header rules + credentials)", keys_e2e)):
         pb = [kc for kc in prop_bad if kc[0] == kind]
         mb = [kc for kc in model_bad if kc[0] == kind]
         groups = {}
@@ -140,7 +148,8 @@ def run(ctx):
         ctx.notes.append({"unchecked_obligations": ob_failed})
 
     e2e = meta.get("e2e") or {}
-    evals = int(meta.get("stack_cases", 0)) + int(e2e.get("exchanges", 0))
+    evals = int(meta.get("stack_cases", 0)) + int(meta.get("configured_stack_cases", 0)) + int(e2e.get("exchanges", 0)) + \
+        int(e2e.get("configured_exchanges", 0))
     ob_names, ob_done = u.table_obligations("Ob01.v", info)
     coverage = {
         "obligations": len(info["theorems"]) + len(ob_names),
@@ -170,12 +179,16 @@ def run(ctx):
         "model_mismatches": len(model_bad),
         "property_failures_on_impl": len(prop_bad),
         "distribution": {"stack_methods": meta.get("stack_methods"), "stack_header_shapes": meta.get("stack_header_shapes"),
-                         "stack_refused": meta.get("stack_refused"), "e2e": e2e.get("stats")},
+                         "stack_refused": meta.get("stack_refused"), "e2e": e2e.get("stats"),
+                         "configured_stack_cases": meta.get("configured_stack_cases"),
+                         "configured_exchanges": e2e.get("configured_exchanges"), "e2e_configuration": e2e.get("configuration")},
         "samples": meta.get("samples"),
     }
     ctx.finish("proof", coverage, [
         "the theorems are about the Gallina model of the request modifier pipeline (ReqPipeline.v); net/http's reading and writing of the "
         "message are modelled (ReqE2E.v) and tied by the end-to-end differential run only",
         "MITM configuration is not driven end to end (the same modifier stack and transport are used inside an intercepted tunnel)",
-        "header rules and site credentials are not configured in the rigs (C16 / C06 own them); the inner group is modelled without them",
+        "header rules are applied by C16's model G16.Model.apply_rules (imported read-only; its meaning is T16_apply_is_spec) and site "
+        "credentials by a recorded answer of the real CredentialsMatcher (C06's); cases whose rules act on a documented field "
+        "(Via, X-Forwarded-*, User-Agent, Content-Length) are checked for correspondence only",
     ])
